@@ -38,7 +38,7 @@ import RedisVerif.Model.SimRng
 import RedisVerif.Model.SimKernel
 import RedisVerif.Model.SimHarness
 
-namespace RedisVerif.SimCluster
+namespace RedisVerif.SimMulti
 open RedisVerif RedisVerif.SimRng RedisVerif.SimHarness
 
 /-! ## strings that cross the line protocol as naturals (big-endian bytes) -/
@@ -572,4 +572,4 @@ def run (harness : String) (seed : Nat) (cfg : List Nat) : Option String :=
 where
   SimMoreAnswer (lines : List String) : String := s!"{traceDigest lines} | {lines.getLastD ""}"
 
-end RedisVerif.SimCluster
+end RedisVerif.SimMulti
